@@ -556,6 +556,9 @@ def extra_bevy(prop, tier, seed, profiles):
     fails, checked = [], 0
     hist = {"frames": 0, "ended-frames": 0, "key-changes-by-chain": 0, "setkey-switches": 0, "two-animator-apps": 0}
     prev, cfg, dirty, chain_pending, stale, key_set = None, None, False, None, False, False
+    frame_key, other_ext, nframes = None, False, 0     # selector key at the end of the last frame; non-setkey external op since
+    moved_in_frame = False                             # the chain moved the key during the last frame (select may see it only in the next one)
+    hist.update({"restart-checked": 0, "stop-checked": 0, "reassign-checked": 0})
     def fail(L, what, got, want=""):
         fails.append(dict(line=L, directive=f"relational {what}", op=ops[L], got=got, want=want, ops=P.block_of(ops, L)))
     for L, (op, o) in enumerate(zip(ops, impl)):
@@ -576,8 +579,10 @@ def extra_bevy(prop, tier, seed, profiles):
             cfg = dict(has_q=w[8] != "none", chain=w[7], sel=w[5])
             if cfg["has_q"]: hist["two-animator-apps"] += 1
             prev, dirty, key_set, stale = cur, False, False, False
+            frame_key, other_ext, nframes, moved_in_frame = None, False, 0, False
             continue
-        if prev is None: prev = cur; continue
+        if prev is None: prev = cur; frame_key, other_ext, nframes, moved_in_frame = None, False, 0, False; continue
+        if w[0] in ("enable", "breset", "settl", "setpos"): other_ext = True
         if w[0] == "settl" and prev["state"] == 3: stale = True   # re-targeting while Ended does not restart (documented)
         if w[0] == "breset": stale = False
         if w[0] != "frame":
@@ -612,7 +617,29 @@ def extra_bevy(prop, tier, seed, profiles):
                     if cur["ev"] != want:
                         fail(L, "one event per state change carrying the end-of-frame state", o, str(want))
         else:  # C19
-            if key_set and prev["enabled"]:
+            # a key assignment that really changes the key (relative to the last frame) restarts / stops the animator;
+            # re-assigning the key of the last frame restarts nothing. Only judged when no Ended event is pending
+            # (the chain cannot move the key in this frame) and nothing else touched the animator.
+            if cfg["sel"] != "none" and nframes >= 1 and frame_key is not None and prev["enabled"] and not other_ext and not moved_in_frame \
+                    and 3 not in prev["ev"] and prev["key"] is not None and cur["key"] == prev["key"]:
+                slots = cfg["sel"].split(",")
+                k = prev["key"]
+                if k != frame_key:
+                    if k < len(slots) and slots[k] != "-":
+                        hist["restart-checked"] += 1
+                        if cur["state"] == 0 or (cur["state"] in (1, 2) and cur["pos"] != delta):
+                            fail(L, "changing the key plays that key's timeline from its beginning", o, f"state in 1..3 and position {delta}")
+                    else:
+                        hist["stop-checked"] += 1
+                        if cur["state"] != 0 or cur["comp"] != prev["comp"]:
+                            fail(L, "a key without a timeline stops animation and leaves the component alone", o, "state 0, component " + " ".join(prev["comp"]))
+                elif dirty and prev["state"] in (1, 2) and cur["state"] in (1, 2):
+                    hist["reassign-checked"] += 1
+                    if cur["pos"] != prev["pos"] + delta:
+                        fail(L, "re-assigning the current key does not restart anything", o, str(prev["pos"] + delta))
+            if key_set and prev["enabled"] and not moved_in_frame and cur["key"] == prev["key"] and 3 not in prev["ev"]:
+                # (when the chain moved the key during the last frame, what select_animation has already seen is
+                # order-dependent, so "the key changed" is not well defined for this frame)
                 hist["setkey-switches"] += 1
                 if cur["comp"] != prev["comp"]:
                     fail(L, "changing the key does not make the component jump", o, str(prev["comp"]))
@@ -627,7 +654,9 @@ def extra_bevy(prop, tier, seed, profiles):
                 elif not p_ended_recently and q_ended:
                     f = dict(line=L, directive="relational chain fires only when its own animator ended", op=ops[L], got=o, want=impl[L - 1], ops=P.block_of(ops, L), other_animator=True)
                     fails.append(f)
+        moved_in_frame = cur["key"] != prev["key"]
         prev, dirty, key_set = dict(cur, frame_state=cur["state"]), False, False
+        frame_key, other_ext, nframes = cur["key"], False, nframes + 1
     return dict(checked=checked, fails=fails, evaluations=checked, hist=hist)
 
 
